@@ -24,6 +24,7 @@ func init() {
 			"(1) every statement/expression/type node kind that exists in both go/ast and xgo/ast (the Go subset of the tree; derived, not listed) has a case in the dispatcher that lowers it — cl.compileStmt for statements, cl.compileExpr for expressions, cl.toType for type expressions, cl.compileExprLHS for the assignable forms (identifier, index, selector, dereference, and parentheses around them) — or is consumed by a parent handler through a type assertion/switch that the rule locates; a missing case is `compile… failed: unknown` for a valid Go program; " +
 			"(2) cl lowers operators and literal kinds by converting the xgo token to a go/token value (gotoken.Token(v.Op)); every constant name of go/token that xgo/token shares has the same numeric value, so the conversion is the identity on Go's operators; every conversion site is listed; " +
 			"(3a) operand coverage: an optional operand of a node (v.Key, v.Init, v.Else, v.Tag, … — every syntax-node-typed field) that a lowering routine hands to another lowering routine on some path is, on every path to a normal (non-error) exit of that routine, either mentioned or known to be nil through a nil test on that path (path-sensitive over go/cfg; reviewed exceptions in opCoverReviewed) — a path that may carry the operand and never lowers it drops that part of the program silently (`for k = range m` compiled as `for range m`); " +
+			"(3b) field coverage: every syntax-bearing field (child node, Op/Tok/Dir token, syntax flag) that the parser sets on a node kind of the Go subset is read by the code that lowers that kind — the dispatcher's case or a routine that receives the node, up to three calls deep (reviewed exceptions: c01FieldDerived) — a field nobody reads is a part of the program the compiler cannot be taking into account; " +
 			"(3) the routines that lower a node with several operands compile the operands in Go's evaluation order (X before Y, X before Index, X Low High Max, Init Cond Body Else, …) — swapping two of them swaps the operands of a non-commutative operator or the order of side effects.",
 		NotCovered: "everything a handler does beyond dispatch and operand order (the lowering itself happens in gogen), scoping/type inference differences, and XGo's documented deviations (println, string interpolation, auto-capitalised members), which the property excludes.",
 		Run:        runC01,
@@ -39,6 +40,7 @@ func init() {
 			{Name: "dup-case-bools", File: "cl/stmt.go", Old: "\tswitch val.Kind() {\n\tcase constant.Int:\n\t\tif x, ok := constant.Int64Val(val); ok {", New: "\tswitch val.Kind() {\n\tcase constant.Bool:\n\t\treturn constant.BoolVal(val)\n\tcase constant.Int:\n\t\tif x, ok := constant.Int64Val(val); ok {", Expect: "sibling/goVal"},
 			{Name: "range-key-only-dropped", File: "cl/stmt.go", Old: "\t\t} else {\n\t\t\tcompileExprLHS(ctx, v.Key)\n\t\t\tn++\n\t\t}\n", New: "\t\t} else if v.Value != nil {\n\t\t\tcompileExprLHS(ctx, v.Key)\n\t\t\tn++\n\t\t}\n", Expect: "operand-coverage/compileRangeStmt.Key"},
 			{Name: "if-else-only-with-init", File: "cl/stmt.go", Old: "\tif e := v.Else; e != nil {\n\t\tcb.Else(e)", New: "\tif e := v.Else; e != nil && v.Init != nil {\n\t\tcb.Else(e)", Expect: "operand-coverage/compileIfStmt.Else"},
+			{Name: "chan-dir-ignored", File: "cl/func_type_and_var.go", Old: "types.NewChan(typesChanDirs[v.Dir], toType(ctx, v.Value))", New: "types.NewChan(types.SendRecv, toType(ctx, v.Value))", Expect: "lower-field/ChanType.Dir"},
 			{Name: "token-renumbered", File: "token/token.go", Old: "\tADD // +\n\tSUB // -\n", New: "\tSUB // -\n\tADD // +\n", Expect: "token-value/ADD"},
 		},
 	})
@@ -63,6 +65,14 @@ var c01Excluded = map[string]string{
 var c01LHS = []string{"Ident", "IndexExpr", "SelectorExpr", "StarExpr", "ParenExpr"}
 var c01Types = []string{"Ident", "ParenExpr", "SelectorExpr", "StarExpr", "ArrayType", "StructType", "FuncType", "InterfaceType", "MapType", "ChanType", "Ellipsis"}
 
+// c01FieldOmitted / c01FieldDerived: fields of Go node kinds the compiler deliberately does not read (by field name /
+// by Type.Field), reviewed.
+var c01FieldOmitted = map[string]string{}
+var c01FieldDerived = map[string]string{
+	"EmptyStmt.Implicit":  "records whether the semicolon was written; an empty statement means nothing either way",
+	"RangeStmt.NoRangeOp": "surface syntax only: `for k, v := range x` and `for k, v in x` (no `range` keyword) mean the same loop",
+}
+
 // c01Order: the operand fields in Go's evaluation order, per lowering routine.
 var c01Order = map[string][]string{
 	"compileBinaryExpr":   {"X", "Y"},
@@ -75,7 +85,7 @@ var c01Order = map[string][]string{
 }
 
 func runC01(c *core.Check) {
-	prog := c.Load("./cl", "./ast", "./token", "go/ast", "go/token", "go/types")
+	prog := c.Load("./cl", "./ast", "./token", "./parser", "go/ast", "go/token", "go/types")
 	pk, apk, gapk, tpk, gtpk := prog.Pkg("./cl"), prog.Pkg("./ast"), prog.Pkg("go/ast"), prog.Pkg("./token"), prog.Pkg("go/token")
 	if pk == nil || apk == nil || gapk == nil || tpk == nil || gtpk == nil {
 		return
@@ -281,6 +291,38 @@ func runC01(c *core.Check) {
 	c.Analysed("operand_coverage_routines", nR)
 	c.Analysed("operand_coverage_operands", nO)
 	c.Floor("operand-coverage", 55)
+
+	// ---------- (3a') field coverage: every syntax-bearing field the parser sets on a Go node kind is read by the code
+	// that lowers that kind (the dispatcher's case, or a routine that receives the node, three calls deep)
+	if xpk := prog.Pkg("./parser"); xpk != nil {
+		nodeI := ifaceOf(apk.Types.Scope().Lookup("Node").Type())
+		for _, d := range []struct {
+			fn  string
+			idx int
+		}{{"compileStmt", 1}, {"compileExpr", 1}, {"compileExprLHS", 1}, {"toType", 1}} {
+			fd := prog.FuncDecl("./cl", d.fn)
+			if fd == nil || nodeI == nil {
+				continue
+			}
+			ts := typeSwitchOn(fd.Body, info, paramObj(fd, info, d.idx))
+			if ts == nil {
+				continue
+			}
+			for _, s := range ts.Body.List {
+				cc := s.(*ast.CaseClause)
+				if len(cc.List) != 1 || info.Implicits[cc] == nil {
+					continue
+				}
+				nt := namedOf(info.TypeOf(cc.List[0]))
+				if nt == nil || nt.Obj().Pkg() != apk.Types || gapk.Types.Scope().Lookup(nt.Obj().Name()) == nil {
+					continue // XGo-only node kinds belong to C02–C05
+				}
+				checkFieldsRead(c, pk, xpk, nodeI, nt, cc, info.Implicits[cc], fieldReadRule{prefix: "lower", verb: "lowers", omitted: c01FieldOmitted, derived: c01FieldDerived})
+			}
+		}
+	}
+
+	c.Floor("lower-field", 60)
 
 	// ---------- (3b) name resolution: the scope chain is consulted before the package-level symbol loaders
 	// (Go: the innermost declaration wins; a function-local type or variable shadows a package-level one)
